@@ -159,7 +159,6 @@ def oms_causes(case, eq, pre, post, p0, pref, pref_total):
     """known root causes of redesign drift in one OMS: {cls: first index in `post` from which it may act}"""
     sp = case['span']
     causes = {}
-    att0 = {o['uid']: o['att_in'] for o in pre if o['kind'] in ('fiber', 'raman')}
     user = {o['uid']: o for o in pre if o['kind'] == 'edfa'}
     off = p0 - pref
     loss = 0.0
@@ -170,17 +169,11 @@ def oms_causes(case, eq, pre, post, p0, pref, pref_total):
             span.append((idx, r))
             continue
         a = eq['Edfa'][r['variety']]
-        if any(x['kind'] == 'fiber' and att0.get(G.base_uid(x['uid']), 0.0) != 0.0
-               and x['att_in'] > att0.get(G.base_uid(x['uid']), 0.0) + 1e-12 for _, x in span):
-            causes.setdefault('att-in-double-count', idx)
         u = user.get(r['uid'])
         u_voa = None if u is None else u['out_voa_user']
         voa_auto = u_voa is None and sp['power_mode'] and bool(a.out_voa_auto)
         if voa_auto and pref_total + r['_delta_p'] > a.p_max + 1e-9:
             causes.setdefault('voa-rounding-above-pmax', idx)
-        p_in = pref_total + off - loss - r['in_voa']
-        if (not sp['power_mode']) and r['in_voa'] and p_in + r['in_voa'] + r['effective_gain'] > a.p_max + 1e-9:
-            causes.setdefault('gain-mode-in-voa-saturation', idx)
         off = r['_delta_p'] - r['out_voa']
         loss = 0.0
         span = []
@@ -394,7 +387,7 @@ def classify_diff(case, uid, path, v1, v2, owner, causes, postk):
             return 'K1-eol-redesign-drift'
         if path in ('operational.delta_p',) and not sp['power_mode']:
             return 'unlisted'
-    for cls in ('att-in-double-count', 'voa-rounding-above-pmax', 'gain-mode-in-voa-saturation'):
+    for cls in ('voa-rounding-above-pmax',):
         if cls in cs and k >= cs[cls] and numeric and path in ('operational.gain_target', 'operational.delta_p'):
             return cls
     return 'unlisted'
